@@ -74,6 +74,14 @@ func newSignalLayout(size int) *SignalLayout {
 // generateFilters generates the filters of the layout.
 // It must be called every time the layout is changed.
 func (sl *SignalLayout) generateFilters() {
+	sl.filters = sl.computeFilters()
+}
+
+// computeFilters returns the filters that describe the current state of the layout.
+// The size and the byte order of a signal can change without the layout being notified
+// (type or enum swap, enum edits, signal not yet attached to the message when inserted),
+// so readers of the filters always compute them from the signals.
+func (sl *SignalLayout) computeFilters() []*SignalLayoutFilter {
 	filters := []*SignalLayoutFilter{}
 
 	for _, sig := range sl.signals {
@@ -158,7 +166,7 @@ func (sl *SignalLayout) generateFilters() {
 		}
 	}
 
-	sl.filters = filters
+	return filters
 }
 
 func (sl *SignalLayout) verifyBeforeAppend(sig Signal) error {
@@ -588,7 +596,7 @@ func (sl *SignalLayout) stringify(b *strings.Builder, tabs int) {
 	b.WriteString(fmt.Sprintf("%ssize: %d\n", tabStr, sl.size))
 	b.WriteString(fmt.Sprintf("%ssignal_count: %d\n", tabStr, len(sl.signals)))
 
-	for _, f := range sl.filters {
+	for _, f := range sl.computeFilters() {
 		f.stringify(b, tabs)
 	}
 }
@@ -601,7 +609,7 @@ func (sl *SignalLayout) String() string {
 
 // Filters returns the signal filters of the [SignalLayout].
 func (sl *SignalLayout) Filters() []*SignalLayoutFilter {
-	return sl.filters
+	return sl.computeFilters()
 }
 
 // Decode decodes the data according to the [SignalLayout].
@@ -623,7 +631,7 @@ func (sl *SignalLayout) Decode(data []byte) []*SignalDecoding {
 	var rawValue uint64
 
 	// Filters are sorted by entity id, so only adiacent filters belong to the same signal
-	for _, filter := range sl.filters {
+	for _, filter := range sl.computeFilters() {
 		entID := filter.signal.EntityID()
 
 		// New signal to filter
